@@ -544,7 +544,7 @@ def run(ctx, replay=None):
     ]
     NEX = ctx.scale(5, 6)
     NR = ctx.scale(1500, 20000)
-    NPROG = ctx.scale(100, 1500)
+    NPROG = ctx.scale(80, 1500)
 
     if replay and isinstance(replay, dict) and isinstance(replay.get("case"), dict) and "operands" in replay["case"]:
         case = {k: v for k, v in replay["case"].items() if k != "detail"}
